@@ -14,7 +14,8 @@ Sampled (seeded, deterministic given VERIF_SEED):
     ints / strings, sources and targets handed over in random order, weighted and unweighted, extra isolated nodes,
     and three kinds of history: constructor only; constructor + remove_edge of one hyperedge; constructor (or add_edge)
     receiving a hyperedge that is already present (re-insertion).  Failures after a re-insertion carry a key of their
-    own (suffix "[after re-inserting an existing hyperedge]") because they have a different cause.
+    own (one common key for the four degree functions, suffix "[after re-inserting a hyperedge]" elsewhere) because
+    they have a different cause than a failure on a plainly constructed hypergraph.
 On every such hypergraph: every node, every filter in {none, size=1..7, order=0..6} (exhaustive part: size=1..n+1,
 order=0..n), every bound max_hyperedge_size in 2..6 - which includes bounds below the largest hyperedge - and for the
 signature also the default bound None (documented as "the largest hyperedge size"; skipped on the empty hypergraph).
@@ -52,27 +53,38 @@ PROPERTY = "C12"
 
 M = "measures.directed."
 RAISES = "does not raise on admissible input"
-REINS = " [after re-inserting an existing hyperedge]"
+REINS = " [after re-inserting a hyperedge]"
+REKEY_DEG = "measures.directed.in_degree/out_degree(_sequence):a re-inserted hyperedge is counted once"
 BOUNDS = (2, 3, 4, 5, 6)
 TOL = 1e-9
 
 
 # --------------------------------------------------------------------------------------------- recorder (per worker)
 class Rec:
-    def __init__(self, suffix=""):
-        self.counts, self.fails, self.counters, self.suffix = {}, [], {}, suffix
+    """Collects clause evaluations in a worker; merged into ctx by the parent (same semantics as ctx.check)."""
+
+    def __init__(self):
+        self.counts, self.fails, self.counters = {}, [], {}
+        self.reinserted = False
+        self.replay = None
         self._perkey = {}
 
-    def check(self, cond, function, clause, input=None, expected=None, observed=None, key=None, replay=None):
+    def check(self, cond, function, clause, detail=None, key=None, rekey=None):
+        """detail: zero-argument callable giving dict(input=, expected=, observed=); only evaluated on failure.
+        rekey: key to use instead when the history re-inserted a hyperedge (a different cause)."""
         name = f"{function}:{clause}"
         self.counts[name] = self.counts.get(name, 0) + 1
         if not cond:
-            key = (key or name) + self.suffix
+            key = key or name
+            if self.reinserted:
+                key = rekey or key + REINS
             n = self._perkey.get(key, 0)
             self._perkey[key] = n + 1
             if n < 2:
-                self.fails.append(dict(function=function, clause=clause, input=input, expected=expected,
-                                       observed=observed, key=key, replay=replay))
+                d = detail() if detail else {}
+                self.fails.append(dict(function=function, clause=clause, input=d.get("input"),
+                                       expected=d.get("expected"), observed=d.get("observed"), key=key,
+                                       replay=self.replay))
         return cond
 
     def count(self, name, n=1):
@@ -165,7 +177,6 @@ def check_spec(rec, spec, filters):
     import hypergraphx.measures.directed as md
 
     edges, mnodes, _ = model_of(spec)
-    rp = dict(spec=spec)
     h = build(spec)
     nodes = list(h.get_nodes())
     sized = [(s, t, len(s) + len(t)) for s, t in edges]
@@ -175,14 +186,14 @@ def check_spec(rec, spec, filters):
         try:
             return True, getattr(md, fname)(h, *a, **kw)
         except Exception as ex:  # noqa
-            rec.check(False, M + fname, RAISES, input=dict(spec=spec, args=list(a), kwargs=kw),
-                      observed=f"{type(ex).__name__}: {ex}", replay=rp)
+            msg = f"{type(ex).__name__}: {ex}"
+            rec.check(False, M + fname, RAISES, lambda: dict(input=dict(spec=spec, args=list(a), kwargs=kw), observed=msg))
             return False, None
 
     # ---- degrees
     rec.check(len(set(nodes)) == len(nodes) and mnodes <= set(nodes), "DirectedHypergraph.get_nodes",
-              "every inserted node is a node, once", input=spec, expected=sorted(mnodes, key=repr), observed=nodes,
-              replay=rp)
+              "every inserted node is a node, once",
+              lambda: dict(input=spec, expected=sorted(mnodes, key=repr), observed=nodes))
     for flt in filters:
         kw = _kw(flt)
         exp_in = {v: 0 for v in nodes}
@@ -198,20 +209,21 @@ def check_spec(rec, spec, filters):
             for v in nodes:
                 ok, got = call(fname, v, **kw)
                 if ok:
-                    rec.check(got == exp[v], M + fname,
-                              f"counts the hyperedges in which the node is a {role} (filter applied)",
-                              input=dict(spec=spec, node=v, filter=kw), expected=exp[v], observed=got, replay=rp)
+                    rec.check(got == exp[v], M + fname, f"counts the hyperedges with the node as {role} (filtered)",
+                              lambda: dict(input=dict(spec=spec, node=v, filter=kw), expected=exp[v], observed=got),
+                              rekey=REKEY_DEG)
             ok, seq = call(seqname, **kw)
             if ok:
                 good = isinstance(seq, dict)
                 rec.check(good and len(seq) == len(nodes) and set(seq) == set(nodes), M + seqname,
-                          "lists every node once", input=dict(spec=spec, filter=kw), expected=nodes,
-                          observed=list(seq) if good else repr(seq), replay=rp)
+                          "lists every node once",
+                          lambda: dict(input=dict(spec=spec, filter=kw), expected=nodes,
+                                       observed=list(seq) if good else repr(seq)))
                 if good:
-                    bad = {v: (seq.get(v), exp[v]) for v in nodes if v in seq and seq[v] != exp[v]}
-                    rec.check(not bad, M + seqname, f"value = number of hyperedges with the node as {role} (filter applied)",
-                              input=dict(spec=spec, filter=kw), expected={repr(v): e for v, (_, e) in bad.items()},
-                              observed={repr(v): o for v, (o, _) in bad.items()}, replay=rp)
+                    bad = [v for v in nodes if v in seq and seq[v] != exp[v]]
+                    rec.check(not bad, M + seqname, f"values are the {role} counts (filtered)",
+                              lambda: dict(input=dict(spec=spec, filter=kw), expected={repr(v): exp[v] for v in bad},
+                                           observed={repr(v): seq[v] for v in bad}), rekey=REKEY_DEG)
 
     # ---- signature
     fsig = M + "hyperedge_signature_vector"
@@ -234,12 +246,12 @@ def check_spec(rec, spec, filters):
                 exp[(len(s) - 1) * (Be - 1) + (len(t) - 1)] += 1
         inp = dict(spec=spec, max_hyperedge_size=B)
         rec.check(got is not None and len(got) == len(exp) and all(g == e for g, e in zip(got, exp)), fsig,
-                  "cell (a, b) counts the hyperedges of shape (a, b) with total size <= bound", input=inp,
-                  expected=exp, observed=got if got is not None else repr(vec), replay=rp)
+                  "cell (a, b) counts the hyperedges of shape (a, b) with total size <= bound",
+                  lambda: dict(input=inp, expected=exp, observed=got if got is not None else repr(vec)))
         if got is not None:
             nb = sum(1 for _, _, z in sized if z <= Be)
             rec.check(_close(sum(got), nb), fsig, "cells sum to the number of hyperedges with total size <= bound",
-                      input=inp, expected=nb, observed=sum(got), replay=rp)
+                      lambda: dict(input=inp, expected=nb, observed=sum(got)))
 
     # ---- reciprocity
     pairs_all = {(i, j) for s, t, _ in sized for i in s for j in t}
@@ -257,6 +269,9 @@ def check_spec(rec, spec, filters):
         for z in range(2, B + 1):
             es = [(s, t) for s, t, zz in sized if zz == z]
             tot = len(es)
+            if not tot:
+                expd[z] = (0, (0.0,), (0.0,), (0.0,))
+                continue
             ex = sum(1 for s, t in es if (t, s) in edges)
             st_b = sum(1 for s, t in es if all(any((j, i) in pairs_b for j in t) for i in s))
             wk_b = sum(1 for s, t in es if any((j, i) in pairs_b for i in s for j in t))
@@ -267,52 +282,56 @@ def check_spec(rec, spec, filters):
                 wk_a = sum(1 for s, t in es if any((j, i) in pairs_all for i in s for j in t))
                 if st_a != st_b or wk_a != wk_b:
                     rec.count("sizes where the bounded and unbounded reading of strong/weak differ (either accepted)")
-            d = float(tot) if tot else 1.0
-            expd[z] = dict(tot=tot, exact_reciprocity=(ex / d,), strong_reciprocity=(st_b / d, st_a / d),
-                           weak_reciprocity=(wk_b / d, wk_a / d))
-        for fname, r in res.items():
+            expd[z] = (tot, (ex / tot,), (st_b / tot, st_a / tot), (wk_b / tot, wk_a / tot))
+        for col, fname in ((1, "exact_reciprocity"), (2, "strong_reciprocity"), (3, "weak_reciprocity")):
+            if fname not in res:
+                continue
+            r = res[fname]
             fn = M + fname
             isd = isinstance(r, dict)
             rec.check(isd and all(z in r and _num(r[z]) for z in range(2, B + 1)), fn,
-                      "gives a ratio for every size 2..bound", input=inp, observed=repr(r) if not isd else sorted(r),
-                      replay=rp)
+                      "gives a ratio for every size 2..bound",
+                      lambda: dict(input=inp, observed=repr(r) if not isd else sorted(r, key=repr)))
             if not isd:
-                res[fname] = None
+                del res[fname]
                 continue
             for z in range(2, B + 1):
                 if z not in r or not _num(r[z]):
                     continue
                 o = r[z]
-                e = expd[z][fname]
-                rec.check(any(_close(o, x) for x in e), fn, "ratio = fraction of hyperedges of that size satisfying the definition",
-                          input=dict(inp, size=z), expected=list(e), observed=o, replay=rp)
-                rec.check(-TOL <= o <= 1 + TOL, fn, "ratio lies in [0, 1]", input=dict(inp, size=z), observed=o, replay=rp)
-                if expd[z]["tot"] == 0:
-                    rec.check(o == 0, fn, "a size without hyperedges gives 0", input=dict(inp, size=z), expected=0,
-                              observed=o, replay=rp)
+                e = expd[z][col]
+                rec.check(_close(o, e[0]) or _close(o, e[-1]), fn,
+                          "ratio = fraction of the hyperedges of that size satisfying the definition",
+                          lambda: dict(input=dict(inp, size=z), expected=list(e), observed=o))
+                rec.check(-TOL <= o <= 1 + TOL, fn, "ratio lies in [0, 1]",
+                          lambda: dict(input=dict(inp, size=z), observed=o))
+                if expd[z][0] == 0:
+                    rec.check(o == 0, fn, "a size without hyperedges gives 0",
+                              lambda: dict(input=dict(inp, size=z), expected=0, observed=o))
         e_, s_, w_ = (res.get("exact_reciprocity"), res.get("strong_reciprocity"), res.get("weak_reciprocity"))
         for z in range(2, B + 1):
             try:
                 if e_ is not None and s_ is not None:
-                    rec.check(e_[z] <= s_[z] + TOL, M + "strong_reciprocity", "exact <= strong", input=dict(inp, size=z),
-                              expected=f">= {e_[z]}", observed=s_[z], replay=rp)
+                    rec.check(e_[z] <= s_[z] + TOL, M + "strong_reciprocity", "exact <= strong",
+                              lambda: dict(input=dict(inp, size=z), expected=f">= {e_[z]}", observed=s_[z]))
                 if s_ is not None and w_ is not None:
-                    rec.check(s_[z] <= w_[z] + TOL, M + "weak_reciprocity", "strong <= weak", input=dict(inp, size=z),
-                              expected=f">= {s_[z]}", observed=w_[z], replay=rp)
+                    rec.check(s_[z] <= w_[z] + TOL, M + "weak_reciprocity", "strong <= weak",
+                              lambda: dict(input=dict(inp, size=z), expected=f">= {s_[z]}", observed=w_[z]))
             except (KeyError, TypeError):
-                pass  # already reported by "gives a ratio for every size"
+                pass  # already reported by "gives a ratio for every size 2..bound"
 
 
 def run_spec(rec, spec, filters):
     """check_spec, never letting an exception of the code under test (constructor / history) escape."""
-    _, _, reins = model_of(spec)
-    rec.suffix = REINS if reins else ""
+    rec.reinserted = model_of(spec)[2]
+    rec.replay = dict(spec=spec)
     try:
         check_spec(rec, spec, filters)
     except Exception as ex:  # constructor / add_edge / remove_edge / get_nodes raised
-        rec.check(False, "DirectedHypergraph", RAISES, input=spec, observed=f"{type(ex).__name__}: {ex}",
-                  key="DirectedHypergraph:building the input raised", replay=dict(spec=spec))
-    rec.suffix = ""
+        msg = f"{type(ex).__name__}: {ex}"
+        rec.check(False, "DirectedHypergraph", RAISES, lambda: dict(input=spec, observed=msg),
+                  key="DirectedHypergraph:building the input raised")
+    rec.reinserted = False
 
 
 FILTERS_FULL = [None] + [("size", k) for k in range(1, 8)] + [("order", k) for k in range(0, 7)]
@@ -456,12 +475,10 @@ def run(ctx):
     ctx.assume("ratios compared with 1e-9 tolerance; degrees and signature cells compared exactly")
 
     tasks, stasks, ex = _tasks(ctx)
-    # large tasks first for load balance; results are merged in task order, so the outcome is deterministic
-    order = sorted(range(len(tasks) + len(stasks)), key=lambda i: 0)  # keep natural order
-    alltasks = tasks + stasks
+    alltasks = tasks + stasks  # results are merged in task order, so the outcome does not depend on scheduling
     nproc = max(1, min(16, os.cpu_count() or 1))
     with mp.get_context("fork").Pool(nproc) as pool:
-        results = pool.map(_work, [alltasks[i] for i in order], chunksize=1)
+        results = pool.map(_work, alltasks, chunksize=1)
     for (cases, counts, fails, counters), task in zip(results, alltasks):
         for desc, nontrivial in cases:
             ctx.case(desc, nontrivial=nontrivial)
